@@ -469,3 +469,62 @@ Section Scratch.
   Definition pq_contains (q : pquery) (p : P) : pquery * bool :=
     let pos := locate_point p in (mkPQ (Some pos), contains_at p pos).
 End Scratch.
+
+(** * (b') The polygon machine: s2/polygon.go Invert, initLoopProperties, initEdgesAndIndex,
+      Edge/Chain/ChainPosition. A polygon caches a table of per-loop edge offsets
+      (cumulativeEdges) when it has more than 12 loops; Invert reorders the loops (the inverted
+      largest shell moves to the front) and re-runs initEdgesAndIndex, which rebuilds the table
+      and allocates a NEW ShapeIndex holding the polygon. *)
+Section Polygon.
+  Context {V : Type}.
+  (** how Invert rearranges (and inverts one of) the loops: abstract, any function *)
+  Variable reorder : list (list V) -> list (list V).
+
+  Record polygon := mkPoly {
+    ploops : list (list V);
+    ptab   : list nat;                            (* cumulativeEdges; [] = nil (<= 12 loops) *)
+    pindex : index unit (list (list V))           (* its own index; snapshot = the loops as clipped *)
+  }.
+
+  (** offsets acc, acc+n0, acc+n0+n1, ... : one entry per loop *)
+  Fixpoint psums (acc : nat) (lens : list nat) : list nat :=
+    match lens with [] => [] | n :: r => acc :: psums (acc + n) r end.
+
+  Definition max_linear_search_loops := 12.
+
+  (** initEdgesAndIndex. [keep_stale] = the variant that keeps a table that already has one
+      entry per loop (NOT the code in /repo; a seeded defect the theorem must exclude). *)
+  Definition poly_init_edges (keep_stale : bool) (old_tab : list nat) (loops : list (list V)) : polygon :=
+    let fresh_tab := if max_linear_search_loops <? length loops then psums 0 (map (@length V) loops) else [] in
+    let tab := if keep_stale && (length old_tab =? length loops) then old_tab else fresh_tab in
+    mkPoly loops tab (index_add tt index_new).
+
+  Definition poly_new (loops : list (list V)) : polygon := poly_init_edges false [] loops.
+  Definition poly_invert (keep_stale : bool) (p : polygon) : polygon :=
+    poly_init_edges keep_stale (ptab p) (reorder (ploops p)).
+
+  (** Polygon.Edge(e) / ChainPosition(e): which loop, which edge of it.
+      With the table: for i := range tab { if i+1 >= len(tab) || e < tab[i+1] { e -= tab[i]; break } } *)
+  Fixpoint locate_tab (tab : list nat) (i e : nat) : nat * nat :=
+    match tab with
+    | [] => (i, e)
+    | c :: r => match r with
+                | [] => (i, e - c)
+                | c' :: _ => if e <? c' then (i, e - c) else locate_tab r (Datatypes.S i) e
+                end
+    end.
+  (** without: for i = 0; e >= len(loop(i).vertices); i++ { e -= len(loop(i).vertices) } *)
+  Fixpoint locate_lin (lens : list nat) (i e : nat) : nat * nat :=
+    match lens with
+    | [] => (i, e)
+    | n :: r => if n <=? e then locate_lin r (Datatypes.S i) (e - n) else (i, e)
+    end.
+  Definition pedge (p : polygon) (e : nat) : nat * nat :=
+    match ptab p with
+    | [] => locate_lin (map (@length V) (ploops p)) 0 e
+    | tab => locate_tab tab 0 e
+    end.
+
+  Fixpoint poly_iter (keep_stale : bool) (n : nat) (p : polygon) : polygon :=
+    match n with 0 => p | Datatypes.S k => poly_iter keep_stale k (poly_invert keep_stale p) end.
+End Polygon.
